@@ -10,6 +10,18 @@ Search oracle (independent of model and code): the generator's ground truth —
 every returned cell equals the stored grid of its (variable, iteration, level,
 latest restart), and every cache dataset holds the data of the file and
 dataset name it is filed under.
+
+Extended histories (Model/ReadCacheX.lean, Props/C12b.lean): one whole read_data
+call with vars=[] next to explicit requests (tensor and component names mixed),
+usecheckpoints=True calls, skip_last changing from call to call (the catalogue
+iterations.txt is dumped and compared too), explicit restarts (also ones not
+catalogued yet: KeyError), requests that find nothing ({}), 1-12 refinement
+levels (labels 10/11 next to 1), restarts that lack a requested variable and a
+restart without 3D output.  Calls that RAISE are compared as well (status and the
+cache they leave behind).  Oracles: the ground truth (None expected where a
+restart lacks the variable), "dataset content matches what it is filed under",
+and — the property itself — every second cached read (and every cached read that
+raises) is repeated uncached on the real code and the two dictionaries are compared.
 """
 import glob
 import os
@@ -26,8 +38,18 @@ MODULE = "AurelVerif.Props.C12"
 THEOREMS = ["AurelVerif.C12." + t for t in (
     "cache_refines_source", "cache_history", "returned_cells", "returned_cells_one_call", "read_returns",
     "returned_structure", "save_files_right_iteration", "nearest_exact")]
+MODULE_B = "AurelVerif.Props.C12b"
+THEOREMS_B = ["AurelVerif.C12." + t for t in (
+    "cacheX_history", "cacheX_refines_source", "returned_cellsX", "cached_cells_always", "returned_cellsX_history",
+    "cachedX_equals_uncached",
+    "nocache_call", "vars_all_is_request_for_first_restart", "returned_structureX", "returned_structureX_history",
+    "catalogue_only_grows",
+    "early_raise_keeps_cache",
+    "lacking_variable_None", "starved_restart_asymmetry", "skip_last_history")]
 LEAN_FILES = ["AurelVerif/Props/C12.lean", "AurelVerif/Lemmas/ReadCache.lean", "AurelVerif/Model/ReadCache.lean",
-              "Driver/C12.lean"]
+              "AurelVerif/Props/C12b.lean", "AurelVerif/Model/ReadCacheX.lean", "AurelVerif/Lemmas/C12Pres.lean",
+              "AurelVerif/Lemmas/C12Flat.lean", "AurelVerif/Lemmas/C12Restart.lean", "AurelVerif/Lemmas/C12Call.lean",
+              "AurelVerif/Lemmas/C12History.lean", "Driver/C12.lean"]
 MAX_REPORTS = 3
 
 
@@ -253,19 +275,423 @@ def compare(real, model_line):
     return None
 
 
+# ----------------------------------------------------------------- extended histories (Model/ReadCacheX.lean)
+# vars=[] next to explicit requests, usecheckpoints, skip_last changing from call to call (the catalogue
+# iterations.txt is persistent), up to twelve levels, restarts that lack a variable, a restart without 3D output.
+def comp_ids(name):
+    return [etgen.VAR_ID[c] for c in etgen.components(C11.ET_TO_AUREL.get(name, name))]
+
+
+def restart_grouped(sim, r):
+    return any(len(vs) > 1 for vs in sim.files_for(r).values())
+
+
+def read_catalogue(sim):
+    """(catalogued restart numbers in file order, {restart: ['var available' names]}) from iterations.txt"""
+    p = os.path.join(sim.simdir, "iterations.txt")
+    done, va, cur = [], {}, None
+    if os.path.exists(p):
+        for li in open(p).read().split("\n"):
+            if li.startswith(" === restart "):
+                cur = int(li.split(" === restart ")[1])
+                done.append(cur)
+            elif li.startswith("3D variables available: [") and cur is not None:
+                va[cur] = re.findall(r"'([^']*)'", li.split("3D variables available: ", 1)[1])
+    return done, va
+
+
+def world_line(sim, va, no3d=()):
+    """the directory as Model/ReadCacheX.World; `va`: 'var available' per catalogued restart (its ORDER is taken
+    from the real catalogue — it follows the file system order — its CONTENT is checked against the generator)"""
+    out, bad = [], None
+    for r in sorted(sim.desc["restarts"], key=lambda r: r["number"]):
+        n = r["number"]
+        ck = sim.checkpoint_its(n)
+        cheld = sorted(etgen.VAR_ID[v] for v in sim.written_vars(r))
+        if n in no3d:
+            its, held, names = ck, [], None
+        else:
+            its, held = r["its"], cheld
+            names = va.get(n)
+            truth = sorted(sim.written_vars(r))
+            if names is None:
+                names = truth               # never catalogued: the order is never used
+            elif sorted(c for nm in names for c in etgen.components(nm)) != truth:
+                bad = "restart %d: catalogue lists %s, the generator wrote %s" % (n, names, truth)
+        out.append("%d:%s:%s:%d:%s:%s:%s" % (
+            n, "%d-%d" % (min(its), max(its)) if its else "-",
+            "+".join(map(str, sorted(ck))) if ck else "e", 1 if (n not in no3d and restart_grouped(sim, r)) else 0,
+            "-" if names is None else "|".join(",".join(map(str, comp_ids(nm))) for nm in names),
+            ",".join(map(str, held)) if held else "e", ",".join(map(str, cheld)) if cheld else "e"))
+    return "world " + ";".join(out), bad
+
+
+def callx_line(call):
+    req = ";".join(",".join(map(str, comp_ids(n))) for n in call["vars"]) if call["vars"] else "-"
+    return "callx %d %s %s %d %d %d %d" % (1 if call["skip_last"] else 0, req, ",".join(map(str, call["it"])),
+                                           call["rl"], call["restart"], 1 if call["split"] else 0,
+                                           1 if call.get("usecheckpoints") else 0)
+
+
+def real_rows_x(sim, call, data):
+    """canonical rows of the returned dict over ALL its columns: [(it, {name: code})]"""
+    if "it" not in data:
+        return []
+    rows = []
+    for i, it in enumerate(data["it"]):
+        row = {}
+        for k, col in data.items():
+            if k == "it":
+                continue
+            if i >= len(col):
+                row[k] = "short"
+            elif k == "t":
+                row["t"] = time_code(col[i], call["rl"])
+            elif k in etgen.VAR_ID:
+                row["v%d" % etgen.VAR_ID[k]] = block_code(sim, col[i])
+            else:
+                row[k] = "unexpected"
+        rows.append((int(it), row))
+    return rows
+
+
+def expected_rows_x(sim, call, considered, no3d=()):
+    """[(it, restart)] a correct reader returns, given the restarts catalogued so far (independent of the model)"""
+    chk = bool(call.get("usecheckpoints"))
+
+    def holds(r, it):
+        if chk:
+            return it in sim.checkpoint_its(r)
+        its = sim.checkpoint_its(r) if r in no3d else sim.its_of(r)
+        return bool(its) and min(its) <= it <= max(its)
+    rows = []
+    for it in sorted(set(call["it"])):
+        cand = [call["restart"]] if call["restart"] >= 0 else sorted(considered)
+        cand = [r for r in cand if r in considered and holds(r, it)]
+        if cand:
+            rows.append((it, max(cand)))
+    return rows
+
+
+def truth_oracle_x(sim, call, data, rows, names, starved=()):
+    """None or the first difference between the returned dict and the generator's ground truth; `names`: the
+    requested names (for vars=[]: the scalars the first restart read holds); `starved`: restarts that hold none
+    of them (a cached read returns their rows with t = None, see run_history_x)"""
+    chk = bool(call.get("usecheckpoints"))
+    if not rows and data == {}:
+        return None
+    if "it" not in data or [int(i) for i in data["it"]] != [it for it, _ in rows]:
+        return "iterations returned %s, expected %s" % ([int(i) for i in data.get("it", [])], [it for it, _ in rows])
+    want_t = [sim.time(it, r, chk) for it, r in rows]
+    got_t = [None if t is None else float(t) for t in data["t"]]
+    # the time of a starved restart's row is None unless an earlier call cached it
+    if len(got_t) != len(want_t) or any(g != w and not (g is None and r in starved)
+                                        for g, w, (_, r) in zip(got_t, want_t, rows)):
+        return "times returned %s, expected %s" % (list(data["t"]), want_t)
+    for n in names:
+        for c in C11.request_components(n):
+            if not any(sim.has_var(c, r) for _, r in rows):
+                if c in data and any(x is not None for x in data[c]):
+                    return "variable %s was not written by any restart read, yet data came back" % c
+                continue
+            if c not in data:
+                return "variable %s (requested as %s) missing from the result (keys %s)" % (c, n, sorted(data))
+            if len(data[c]) != len(rows):
+                return "variable %s has %d entries for %d iterations" % (c, len(data[c]), len(rows))
+            for i, (it, r) in enumerate(rows):
+                if not sim.has_var(c, r):
+                    if data[c][i] is not None:
+                        return "%s it=%d: restart %d did not write it, expected None" % (c, it, r)
+                    continue
+                if data[c][i] is None:
+                    return "%s it=%d restart=%d: None returned, the data is stored" % (c, it, r)
+                exp = sim.truth(c, it, call["rl"], r, chk)
+                got = np.asarray(data[c][i])
+                if got.shape != exp.shape or not np.array_equal(got, exp):
+                    return "%s it=%d rl=%d restart=%d: not the stored grid (first value decodes to %s)" % (
+                        c, it, call["rl"], r, etgen.decode(got.flat[0]) if got.size else "empty")
+    return None
+
+
+def twin_diff(sim, call, data, twin):
+    """None or the first difference between a cached read and the same read with split_per_it=False, on the
+    columns of the cached read (the uncached read of a group file also returns the unrequested members)"""
+    if ("it" in data) != ("it" in twin):
+        return "cached returns keys %s, uncached keys %s" % (sorted(data), sorted(twin))
+    if "it" not in data:
+        return None
+    if [int(i) for i in data["it"]] != [int(i) for i in twin["it"]]:
+        return "iterations cached %s, uncached %s" % (list(data["it"]), list(twin["it"]))
+    for k in data:
+        if k == "it":
+            continue
+        if k not in twin:
+            if any(x is not None for x in data[k]):
+                return "column %s only in the cached result" % k
+            continue
+        if len(data[k]) != len(twin[k]):
+            return "column %s: %d entries cached, %d uncached" % (k, len(data[k]), len(twin[k]))
+        for i, (a, b) in enumerate(zip(data[k], twin[k])):
+            if (a is None) != (b is None) or (a is not None and not np.array_equal(np.asarray(a), np.asarray(b))):
+                return "column %s, iteration %d: cached and uncached values differ" % (k, int(data["it"][i]))
+    return None
+
+
+def random_history_x(rng, sim, ncalls, nlevels, no3d=()):
+    d = sim.desc
+    numbers = sim.restart_numbers(False)
+    pool = sim.all_its()
+    ckpool = sorted({i for r in numbers for i in sim.checkpoint_its(r)})
+    req = list(d["requests"])
+    tensors = [n for n in req if n in etgen.TENSORS]
+    skip = len(numbers) >= 2 and rng.random() < 0.5
+    calls = []
+    for k in range(ncalls):
+        mode = rng.random()
+        if k == 0 and tensors and rng.random() < 0.4:
+            names = [rng.choice(etgen.components(rng.choice(tensors)))]
+            its = rng.sample(pool, rng.randint(1, max(1, len(pool) // 2)))
+        elif mode < 0.25:
+            names, its = [], rng.sample(pool, rng.randint(1, len(pool)))            # vars=[]
+        elif mode < 0.45:
+            names = rng.sample(req, rng.randint(1, len(req)))
+            its = rng.sample(pool, rng.randint(1, len(pool)))
+        elif mode < 0.8:
+            names = [c for n in req for c in (etgen.components(n) if rng.random() < 0.6 else [n])]
+            names = rng.sample(names, rng.randint(1, len(names)))
+            if rng.random() < 0.15 and tensors:
+                names.append(rng.choice(tensors))                                      # a component next to its tensor
+            its = rng.sample(pool, rng.randint(1, len(pool)))
+        else:
+            names, its = list(req), list(pool)
+        if rng.random() < 0.2:
+            its = its + [rng.choice(its)]
+        if rng.random() < 0.05:
+            its = [max(pool) + 1000]                                                    # nothing to read: {}
+        call = {"it": its, "vars": names, "rl": rng.randrange(nlevels), "restart": -1,
+                "skip_last": skip, "split": rng.random() < 0.75}
+        if ckpool and rng.random() < 0.3:
+            call["usecheckpoints"] = True
+            call["it"] = rng.sample(ckpool, rng.randint(1, len(ckpool))) + (
+                [rng.choice(pool)] if rng.random() < 0.3 else [])
+        if rng.random() < 0.2:
+            call["restart"] = rng.choice(numbers)           # may not be catalogued yet: KeyError in both modes
+        calls.append(call)
+        if len(numbers) >= 2 and rng.random() < 0.35:
+            skip = not skip                                 # skip_last changes within the history
+    return calls
+
+
+def run_history_x(ctx, root, desc, calls, no3d=()):
+    """-> (lines, real outputs [(status, rows, dump, catalogue)], #violations)"""
+    sim = etgen.Sim(root, desc).write()
+    for n in no3d:
+        # the restart wrote checkpoints only
+        for fn in glob.glob(sim.outdir(n) + "/*.h5"):
+            if "checkpoint.chkpt" not in os.path.basename(fn):
+                os.remove(fn)
+    found = 0
+    reals = [None]
+    considered = set()
+    try:
+        param = sim.param()
+        for ci, call in enumerate(calls):
+            cand = sim.restart_numbers(call["skip_last"])
+            nothing = not cand and not considered                  # ImportError "Nothing to process"
+            considered |= set(cand)
+            rows_exp = expected_rows_x(sim, call, considered, no3d)
+            first = min((r for _, r in rows_exp), default=None)
+            names = call["vars"] or (sorted(sim.written_vars(next(r for r in desc["restarts"] if r["number"] == first)))
+                                     if first is not None and first not in no3d else [])
+            comps = [c for n in names for c in C11.request_components(n)]
+            read3d = sorted({r for _, r in rows_exp})
+            chk = bool(call.get("usecheckpoints"))
+            lacking = [r for r in read3d if any(not sim.has_var(c, r) for c in comps)]
+            starved = [r for r in read3d if not any(sim.has_var(c, r) for c in comps)]
+            # calls that MAY raise (judged from the request and the generator's description only)
+            may_raise = (nothing or (call["restart"] >= 0 and call["restart"] not in considered)
+                         or bool(starved) or (chk and bool(lacking))
+                         or (not call["vars"] and first is not None and first in no3d)
+                         or any(r in no3d for r in read3d) and not chk)
+            data, diff, twin_note = None, None, None
+            try:
+                data = C11.do_read(param, call, split_per_it=call["split"])
+                status, rows = "ok", real_rows_x(sim, call, data)
+                diff = truth_oracle_x(sim, call, data, rows_exp, names, starved)
+                if not call["vars"] and not diff:
+                    extra = sorted(set(data) - set(comps) - {"it", "t"})
+                    if extra:
+                        diff = "vars=[] returned columns %s that the first restart read does not hold" % extra
+                if starved and call["split"] and not chk and not diff:
+                    # remaining asymmetry (/repo b788cb7): a restart that holds NONE of the requested variables —
+                    # the cached read returns its rows with t = None, the uncached read raises IndexError
+                    ctx.count("starved_restart_cached_read_returns_rows_with_t_None")
+                    ctx.cov.setdefault("starved_restart_example", {
+                        "restarts": [(r["number"], r["its"], r.get("skip_vars")) for r in desc["restarts"]],
+                        "call": {k: call[k] for k in ("it", "vars", "rl", "restart", "split")},
+                        "cached_read": "returns %d rows; in the rows of restart(s) %s every requested variable is "
+                                       "None and so is t unless an earlier call cached it" % (len(rows), starved),
+                        "uncached_read": "raises IndexError (flattening: the restart's time column is empty)"})
+            except Exception as ex:  # noqa
+                status, rows = "err", []
+                if not may_raise:
+                    diff = "raised %s: %s" % (type(ex).__name__, str(ex)[:200])
+            dump = dump_cache(sim)
+            cdiff = cache_oracle(sim, dump)
+            reals.append((status, rows, dump, read_catalogue(sim)[0]))
+            ctx.count("xhistory_calls")
+            for key, cond in (("xhistory_calls_vars_all", not call["vars"]), ("xhistory_calls_checkpoints", chk),
+                              ("xhistory_calls_cached", call["split"] and not chk),
+                              ("xhistory_calls_explicit_restart", call["restart"] >= 0),
+                              ("xhistory_calls_raised", status == "err"),
+                              ("xhistory_calls_reading_a_restart_that_lacks_a_variable", bool(lacking) and not chk),
+                              ("xhistory_calls_level_ge_10", call["rl"] >= 10)):
+                if cond:
+                    ctx.count(key)
+            # the property itself on the real code: the same read without the cache
+            if call["split"] and not chk and (status == "err" or not hasattr(ctx, "rng") or ctx.rng.random() < 0.5):
+                try:
+                    twin = C11.do_read(param, call, split_per_it=False)
+                    ctx.count("xhistory_twin_reads")
+                    if status == "err":
+                        twin_note = "the cached read raised, the uncached read of the same arguments returns"
+                    else:
+                        twin_note = twin_diff(sim, call, data, twin)
+                except Exception:  # noqa
+                    if status == "ok" and not starved:
+                        twin_note = "the uncached read raised, the cached read of the same arguments returns"
+            for what, site in ((diff, "read_data"), (cdiff, "cache"), (twin_note, "cached_vs_uncached")):
+                if what:
+                    found += report(ctx, "call %d of a read history (%s) on a %s/%s directory: %s" % (
+                        ci + 1, {k: call.get(k) for k in ("it", "vars", "rl", "restart", "split", "skip_last",
+                                                          "usecheckpoints")},
+                        "file-per-process" if desc["per_proc"] else "one-file",
+                        "grouped" if desc["grouped"] else "one-variable-per-file", what),
+                        {"kind": "history", "x": True, "desc": sim.describe(), "calls": calls[:ci + 1],
+                         "no3d": list(no3d)},
+                        {"site": site, "grouped": desc["grouped"], "per_proc": desc["per_proc"],
+                         "kind": what.split(":")[0][:40]})
+        wl, bad = world_line(sim, read_catalogue(sim)[1], no3d)
+        lines = [wl] + [callx_line(c) for c in calls]
+        if bad:
+            reals[0] = bad
+    finally:
+        sim.remove()
+    return lines, reals, found
+
+
+def parse_model_x(line):
+    parts = line.split(" # ")
+    if len(parts) != 4:
+        return None
+    status, mrows, mstore = parse_model(parts[0] + " # " + parts[1])
+    done = [int(x) for x in parts[2].split(",") if x.strip()]
+    return status, mrows, mstore, done, parts[3].strip()
+
+
+def compare_x(call, real, model_line):
+    """None or a description of the first difference between code and Model/ReadCacheX"""
+    if call is None:
+        if isinstance(real, str):
+            return "catalogue: " + real
+        return None if model_line == "ok" else "world -> %s" % model_line
+    status, rows, dump, done = real
+    pm = parse_model_x(model_line)
+    if pm is None:
+        return "model output not understood: %s" % model_line[:120]
+    mstatus, mrows, mstore, mdone, old = pm
+    if old == "old=diff":
+        return "Model/ReadCache.lean and Model/ReadCacheX.lean disagree on this call"
+    if status != mstatus:
+        return "impl %s, model %s" % (status, mstatus)
+    if status == "ok":
+        if [it for it, _ in rows] != [it for it, _, _ in mrows]:
+            return "iterations: impl %s, model %s" % ([it for it, _ in rows], [it for it, _, _ in mrows])
+        uncached_grouped = not call["split"] and not call.get("usecheckpoints")
+        for (it, row), (_, _, mrow) in zip(rows, mrows):
+            # the uncached read of a group file also returns the unrequested members of the group
+            sub = {k: v for k, v in row.items() if k in mrow} if uncached_grouped else row
+            if sub != mrow:
+                return "row it=%d: impl %s, model %s" % (it, row, mrow)
+    if dump != mstore:
+        ks = sorted(set(dump) ^ set(mstore)) or sorted(k for k in dump if dump[k] != mstore.get(k))
+        k = ks[0]
+        return "cache dataset %s: impl %s, model %s" % (k, dump.get(k, "absent"), mstore.get(k, "absent"))
+    if done != mdone:
+        return "catalogued restarts: impl %s, model %s" % (done, mdone)
+    return None
+
+
+def x_directories(ctx, tmp, nd):
+    """the extended histories; -> (lines, reals, calls per line, #violations)"""
+    rng = ctx.rng
+    all_lines, all_reals, all_calls, found = [], [], [], 0
+    kinds = {}
+    for k in range(nd):
+        per_proc, grouped = bool(k & 1), bool(k & 2)
+        kind = ("plain", "checkpoints", "lacking", "levels12", "checkpoints", "plain", "no3d", "lacking")[k % 8] \
+            if k >= 4 else ("plain", "checkpoints", "levels12", "lacking")[k]
+        no3d = ()
+        if kind == "levels12":
+            desc = etgen.random_desc(rng, "c12x%d" % k, per_proc=False, grouped=grouped, nlevels=12,
+                                     nrest=rng.randint(1, 2), nmax=3, kmax=(1, 1, 1), gmax=1, nvars=1, nits=2)
+        else:
+            desc = etgen.random_desc(rng, "c12x%d" % k, per_proc=per_proc, grouped=grouped,
+                                     nlevels=1 + (k // 4) % 2, nrest=(rng.randint(2, 3) if kind != "plain" else None),
+                                     nmax=4, kmax=(2, 2, 2), gmax=2, nvars=rng.randint(1, 2), nits=4)
+        if kind != "levels12" and k % 3 == 0 and not any(n in etgen.TENSORS for n in desc["requests"]):
+            t = rng.choice(sorted(etgen.TENSORS))
+            desc["requests"].append(t)
+            desc["vars"] = sorted(set(desc["vars"]) | set(etgen.components(t)))
+        if kind in ("checkpoints", "no3d"):
+            etgen.add_random_checkpoints(rng, desc, prob=1.0 if kind == "no3d" else 0.8)
+        if kind == "lacking":
+            if len(desc["vars"]) < 2 and not desc["grouped"]:
+                extra = rng.choice([v for v in sorted(etgen.VARS) if v not in desc["vars"]])
+                desc["vars"] = sorted(desc["vars"] + [extra])
+                desc["requests"].append(extra)
+            etgen.add_random_skips(rng, desc)
+        if kind == "no3d":
+            no3d = (desc["restarts"][-1]["number"],)
+        sim = etgen.Sim(tmp + "/", desc)
+        calls = random_history_x(rng, sim, rng.randint(4, 9), len(desc["levels"]), no3d)
+        if kind == "levels12":
+            for c, rl in zip(calls, [11, 10, 1, 1, 0, 2, 1, 11, 10]):
+                c["rl"] = rl
+        kinds[kind] = kinds.get(kind, 0) + 1
+        if k == 0:
+            ctx.sample({"xhistory": calls[:3], "requests": desc["requests"], "restarts": desc["restarts"]})
+        lines, reals, f = run_history_x(ctx, tmp + "/", desc, calls, no3d)
+        found += f
+        all_lines += lines
+        all_reals += reals
+        all_calls += [None] + calls
+    ctx.cov["xhistory_directories"] = nd
+    ctx.cov["xhistory_kinds"] = kinds
+    return all_lines, all_reals, all_calls, found
+
+
 def run(ctx):
     ctx.trusted += ["Lean 4.33 kernel; axioms propext, Classical.choice, Quot.sound",
                     "Model/ReadCache.lean is hand-written; tied to read_data(split_per_it=True/False) by "
                     "correspondence on read histories (returned rows and every cache dataset after every call)",
                     "the uncached read is the abstract source `src` of the model (what C11 establishes)",
                     "lib/etgen.py (generator and ground truth)", "h5py / HDF5"]
-    ctx.assumptions += ["one simulation directory, cache initially empty, no concurrent writers",
-                        "skip_last is fixed for a history (the catalogue iterations.txt is not part of the model)",
-                        "vars=[] (read everything available) and checkpoints are outside the histories"]
+    ctx.trusted += ["Model/ReadCacheX.lean (one whole read_data call: catalogue, vars=[], usecheckpoints, restarts "
+                    "lacking variables, calls that raise) is hand-written; tied to read_data by the extended "
+                    "read-history correspondence; the checkpoint reader is abstract in the model (the driver's "
+                    "instance is validated by the same correspondence)"]
+    ctx.assumptions += ["one simulation directory, cache and catalogue initially empty, no concurrent writers",
+                        "requested iterations inside a restart's range are stored in its files at the requested "
+                        "level (otherwise read_ET_group_or_var raises in both modes; not modelled)",
+                        "cached == uncached is proven when every restart that is read holds at least one requested "
+                        "variable; a restart holding none: uncached raises IndexError, cached returns None rows "
+                        "(Lean witness starved_restart_asymmetry; recorded in the coverage, no violation)"]
     ctx.prove(MODULE, THEOREMS)
+    ctx.prove(MODULE_B, THEOREMS_B)
     ctx.forbidden_scan(LEAN_FILES)
     if ctx.tier == "thorough":
-        ctx.leanchecker([MODULE])
+        ctx.leanchecker([MODULE, MODULE_B])
     rng = ctx.rng
     tmp = tempfile.mkdtemp(prefix="c12_")
     found = 0
@@ -306,12 +732,31 @@ def run(ctx):
             all_reals += reals
         ctx.cov["history_directories"] = nd
         ctx.cov["history_layouts"] = layouts
+        ndx = ctx.budget(48, 240) + (8 if ctx.broken() else 0)
+        x_lines, x_reals, x_calls, f = x_directories(ctx, tmp, ndx)
+        found += f
         try:
-            outs = ctx.run_driver("Driver/C12.lean", all_lines)
+            outs = ctx.run_driver("Driver/C12.lean", all_lines + x_lines)
         except Exception as ex:  # noqa
             outs = None
             ctx.obligation("correspondence:driver", False, repr(ex), kind="correspondence")
         if outs is not None:
+            xouts, outs = outs[len(all_lines):], outs[:len(all_lines)]
+            bad = []
+            for line, call, real, out in zip(x_lines, x_calls, x_reals, xouts):
+                d = compare_x(call, real, out)
+                if d:
+                    bad.append("%s -> %s" % (line[:200], d[:300]))
+            ctx.cov["xcorrespondence_cases"] = len(x_lines)
+            ctx.cov["xcache_datasets_compared"] = sum(len(r[2]) for r in x_reals if isinstance(r, tuple))
+            ctx.cov["xcalls_in_the_domain_of_Model_ReadCache_and_equal_there"] = sum(
+                1 for o in xouts if o.endswith("old=same"))
+            ctx.sample({"xcorrespondence_case": x_lines[:2], "model_output": xouts[1][:300]})
+            ctx.obligation("correspondence: Model/ReadCacheX vs read_data histories with vars=[], usecheckpoints, "
+                           "changing skip_last, 12 levels, restarts lacking a variable / without 3D output (%d calls "
+                           "in %d directories; rows, every cache dataset and the catalogue after every call, also "
+                           "after a call that raises; Model/ReadCache agrees on its domain)"
+                           % (len(x_lines) - ndx, ndx), not bad, "; ".join(bad[:4]), kind="correspondence")
             bad = []
             for line, real, out in zip(all_lines, all_reals, outs):
                 d = compare(real, out)
@@ -342,7 +787,10 @@ def replay(ctx, obj):
 
             def match_known(self, fp):
                 return None
-        _, _, n = run_history(Quiet(), tmp + "/", obj["desc"], obj["calls"])
+        if obj.get("x"):
+            _, _, n = run_history_x(Quiet(), tmp + "/", obj["desc"], obj["calls"], tuple(obj.get("no3d", ())))
+        else:
+            _, _, n = run_history(Quiet(), tmp + "/", obj["desc"], obj["calls"])
         print("replay history: %s" % ("still failing" if n else "now correct"))
         return 1 if n else 0
     finally:
@@ -351,21 +799,37 @@ def replay(ctx, obj):
 
 MANIFEST = {
     "category": "proof",
-    "technique": "Lean 4 theorems over a hand-written model of the split_per_it branch (abstract source, cache store "
-                 "as a dictionary): store invariant by induction over every write of every call of every finite "
-                 "history; model tied to the code by correspondence on random read histories with a complete dump "
-                 "of the cache after every call",
-    "text": "Proof for all finite histories of read_data calls (any iteration subsets, variable subsets, tensor or "
-            "component names, levels, restarts, split_per_it on/off interleaved) starting from any cache that "
-            "satisfies the invariant, in particular the empty one: every dataset ever written to an "
+    "technique": "Lean 4 theorems over two hand-written models: the split_per_it branch (Model/ReadCache: abstract "
+                 "source, cache store as a dictionary) and one whole read_data call (Model/ReadCacheX: persistent "
+                 "catalogue with changing skip_last, vars=[], usecheckpoints, restarts lacking variables, calls that "
+                 "raise half-way); store invariant by induction over every write of every call of every finite "
+                 "history; models tied to the code by correspondence on random read histories with a complete dump "
+                 "of the cache and the catalogue after every call; cached reads also compared with the same uncached "
+                 "read on the real code",
+    "text": "Proof for all finite histories of read_data calls (any iteration subsets, variable subsets or vars=[], "
+            "tensor or component names, any level number, restart=-1 or explicit, split_per_it on/off, usecheckpoints "
+            "on/off, skip_last changing from call to call, restarts that lack variables, calls that return and calls "
+            "that raise half-way) starting from the empty cache: every dataset ever written to an "
             "all_iterations/it_<n>.hdf5 file equals the source at the (variable, iteration, level, restart) it is "
-            "filed under, and every value a call returns for a requested cell equals the source, whatever the cache "
-            "held. The model (cache read, its_missing, union of missing iterations per variable, fill by nearest "
-            "'it', save_data by position in data['it']) is tied to aurel.read_data by comparing, after every call of "
-            "random histories on generated directories whose data differ at every iteration, the returned dict and "
-            "every dataset of every cache file.",
-    "note": "Trusted: Lean kernel + propext/Classical.choice/Quot.sound; the hand-written model (validated on 40 "
-            "quick / 200 thorough directories x 3-8 calls, four layouts, 1-2 levels, 1-3 restarts); the uncached read "
-            "as abstract source (C11); lib/etgen.py; h5py. skip_last fixed per history; vars=[] and checkpoints not "
-            "covered.",
+            "filed under (cacheX_history). Every call on 3D data, cached or not, on any cache with the invariant "
+            "returns for every requested component in every row the source where the row's restart holds it and None "
+            "where it does not, and the time, provided every restart read holds at least one requested component "
+            "(returned_cellsX, cachedX_equals_uncached); vars=[] is proven to be the request for the variables of "
+            "the first restart read; checkpoint and uncached calls are proven not to read or write the cache; the "
+            "row order is C11's restart model for the catalogue of the call (returned_structureX). The models are "
+            "tied to aurel.read_data by comparing, after every call of random histories on generated directories "
+            "whose data differ at every iteration, the returned dict, every dataset of every cache file and the "
+            "catalogue.",
+    "note": "Trusted: Lean kernel + propext/Classical.choice/Quot.sound; the hand-written models (Model/ReadCache: 40 "
+            "quick / 200 thorough directories x 3-8 calls; Model/ReadCacheX: 48 / 240 directories x 4-9 calls with "
+            "vars=[], checkpoints, changing skip_last, 1-12 levels incl. labels 10/11 next to 1, restarts lacking a "
+            "variable or without 3D output; the two models are compared with each other on the common domain in the "
+            "driver); the uncached read as abstract source (C11); the checkpoint reader abstract (C11c models it); "
+            "lib/etgen.py; h5py. NOT proven / remaining: (a) a restart that holds NONE of the requested variables: "
+            "the uncached read raises IndexError, the cached read returns None rows (Lean witness "
+            "starved_restart_asymmetry, counted in the coverage as starved_restart_*); (b) iterations or levels a "
+            "restart's files do not hold (both modes raise; outside the model); (c) the values returned by "
+            "checkpoint calls (only: the cache plays no part). Three defects found by this extension were fixed in "
+            "/repo (e04ff7b, b788cb7: cached read raised KeyError / IndexError where the uncached read returns None "
+            "for a variable a restart lacks).",
 }
